@@ -1111,8 +1111,17 @@ func (tr *FnCtx) instr(st *State, in ssa.Instruction, b *ssa.BasicBlock, idx int
 		tr.safety = append(tr.safety, accessSite{tr.guard, "false", "panic reached in block " + fmt.Sprint(b.Index)})
 	case *ssa.If, *ssa.Jump:
 	case *ssa.Send:
+		tr.sendAnchor(st, x.Chan)
 	case *ssa.Select:
 		tr.vals[x] = tr.freshVal(x.Type(), "select")
+		// anchors "send <field>#k": a (possibly non-blocking) send on a channel held in a struct field. What the send
+		// means (e.g. "a persist request is pending afterwards") is stated as a ghost update at the anchor and listed
+		// as an assumption; the proof obligation is that the send is still there (a lost anchor fails).
+		for _, sst := range x.States {
+			if sst.Dir == types.SendOnly {
+				tr.sendAnchor(st, sst.Chan)
+			}
+		}
 	default:
 		tr.note(fmt.Sprintf("unsupported instruction %T: result unconstrained", in))
 		tr.unsupported = append(tr.unsupported, fmt.Sprintf("%T", in))
@@ -1120,6 +1129,23 @@ func (tr *FnCtx) instr(st *State, in ssa.Instruction, b *ssa.BasicBlock, idx int
 			tr.vals[v] = tr.freshVal(v.Type(), "unsup")
 		}
 	}
+}
+
+func (tr *FnCtx) sendAnchor(st *State, ch ssa.Value) {
+	name := fieldFuncName(ch)
+	if name == "" {
+		return
+	}
+	tr.callCount["send:"+name]++
+	anchor := fmt.Sprintf("send %s#%d", name, tr.callCount["send:"+name])
+	if tr.Spec != nil {
+		for _, at := range tr.Spec.Ats {
+			if at.Anchor == anchor && at.Kind == "ghost" {
+				tr.assumesUsed = append(tr.assumesUsed, tr.Short+": the send on channel field "+name+" means: ghost "+at.Src)
+			}
+		}
+	}
+	tr.runAts(st, anchor, nil)
 }
 
 func (tr *FnCtx) typeID(t types.Type) string {
